@@ -379,7 +379,7 @@ def run_check(prop: str, tier: str, replay: str | None) -> int:
         "frames written by the client are identified against payloads produced by the package's own encoders (codec correctness is C03/C04's subject)",
     ]
     with common.Lock():
-        proved = ck.prove(also=["C02api"] if prop == "C02" else None)
+        proved = ck.prove(also=["C02api"] if prop == "C02" else ["C15api"] if prop == "C15" else None)
         if not proved:
             ck.violation("proof", {"theorem_file": f"coq/props/{prop}.v", "failed_at": getattr(ck, "failed_at", "?"),
                                    "log_tail": getattr(ck, "proof_log", "")[-1500:]}, found_input=False)
